@@ -493,6 +493,11 @@ func runC03(o *Out) {
 			gts.Order(gts.Range(0, 4), gts.Range(4, L))}
 		hf = hf.Insert(mkFeat("source", sources[(k/5)%len(sources)]))
 		hf = hf.Insert(mkFeat("hostf", l))
+		if k%4 == 3 {
+			// a table as a file may list it: the source feature behind another feature
+			// (every source is made complete by a slice, wherever it stands)
+			hf = gts.FeatureSlice{mkFeat("hostf", l), mkFeat("source", sources[(k/5)%len(sources)])}
+		}
 		hs := gts.New(nil, hf, letters(L))
 		resW := o.Run("seq_slice-whole", true, "seq_slice", seqSx(hs), "0", itoa(L))
 		checkSliceSeq(o, hs, 0, L, resW)
@@ -956,6 +961,15 @@ func checkSliceSeq(o *Out, hs gts.Sequence, s, e int, res string) {
 // ---------------------------------------------------------------- C04
 
 func runC04(o *Out) {
+	// no residues: nothing to rotate, whatever the amount (and no crash)
+	for _, n := range []int{0, 1, -1, 7} {
+		for _, hs := range []gts.Sequence{gts.New(nil, nil, nil), gts.New(nil, gts.FeatureSlice{mkFeat("f", gts.Between(0))}, nil)} {
+			res := o.Run("seq_rotate-empty", true, "seq_rotate", seqSx(hs), itoa(n))
+			if res != "ok "+seqSx(hs) {
+				o.Violate("rotate-empty-sequence", join("seq_rotate", seqSx(hs), itoa(n)), res)
+			}
+		}
+	}
 	maxL := 8
 	for L := 1; L <= maxL; L++ {
 		if o.Tier != "thorough" && L != 1 && L != 5 && L != maxL {
@@ -978,7 +992,11 @@ func runC04(o *Out) {
 					continue
 				}
 				var hf gts.FeatureSlice
-				hf = hf.Insert(mkFeat("f", l))
+				if cnt%3 == 1 {
+					hf = hf.Insert(mkFeat("source", l))
+				} else {
+					hf = hf.Insert(mkFeat("f", l))
+				}
 				hs := gts.New(nil, hf, letters(L))
 				res := o.Run("seq_rotate", n%L != 0, "seq_rotate", seqSx(hs), itoa(n))
 				checkRotate(o, hs, l, L, n, res)
@@ -1043,6 +1061,7 @@ func smallMulti(L int) []gts.Location {
 
 func checkRotate(o *Out, hs gts.Sequence, l gts.Location, L, n int, res string) {
 	line := join("seq_rotate", seqSx(hs), itoa(n))
+	key := hs.Features()[0].Key // every key is relocated alike, source included
 	if res == "panic" {
 		o.Violate("panic", line, "")
 		return
@@ -1077,7 +1096,7 @@ func checkRotate(o *Out, hs gts.Sequence, l gts.Location, L, n int, res string) 
 			o.Violate("rotate-changed-its-argument", line, string(buf))
 		}
 	}
-	g, cnt := findFeature(out.Features(), "f")
+	g, cnt := findFeature(out.Features(), key)
 	if cnt != 1 {
 		o.Violate("feature-lost", line, "")
 		return
@@ -1124,8 +1143,8 @@ func checkRotate(o *Out, hs gts.Sequence, l gts.Location, L, n int, res string) 
 		if !bytes.Equal(two.Bytes(), one.Bytes()) {
 			o.Violate("not-additive-residues", line, fmt.Sprintf("b=%d", b))
 		}
-		f2, _ := findFeature(two.Features(), "f")
-		f1, _ := findFeature(one.Features(), "f")
+		f2, _ := findFeature(two.Features(), key)
+		f1, _ := findFeature(one.Features(), key)
 		// a feature that became one full-length range after the first rotation is
 		// re-based to 1..L by the second (Ranged.Normalize), like any full-length range
 		midFull := false
@@ -1146,6 +1165,11 @@ func checkRotate(o *Out, hs gts.Sequence, l gts.Location, L, n int, res string) 
 // ---------------------------------------------------------------- C05
 
 func runC05(o *Out) {
+	// Complement does not depend on what else ran before it in the process: here
+	// Transcribe runs first (C18 runs them in the other order)
+	if t := gts.Transcribe(gts.New(nil, nil, []byte("acgtACGT"))).Bytes(); string(t) != "ugcaUGCA" {
+		o.Violate("transcribe", "seq_transcribe", string(t))
+	}
 	L := 8
 	fam := family(L, true)
 	// joins/orders of 4 and 5 parts
@@ -1184,10 +1208,17 @@ func runC05(o *Out) {
 			}
 		}
 	}
-	seqb := []byte("acbdhvkm")
+	seqAscii := []byte("acbdhvkm")
+	// residues are bytes: a stray Latin-1 letter, a lone continuation byte and a
+	// two-byte UTF-8 letter are reversed byte by byte like everything else
+	seqBytes := []byte{0xe9, 'c', 0x80, 'd', 0xc3, 0xa9, 'k', 'm'}
 	for k, l := range fam {
 		if o.Tier != "thorough" && isMulti(l) && k%3 != int(o.Seed%3) {
 			continue
+		}
+		seqb := seqAscii
+		if k%4 == 2 {
+			seqb = seqBytes
 		}
 		res := o.Run("reverse", true, "loc_reverse", locSx(l), itoa(L))
 		o.Run("complement", true, "loc_complement", locSx(l))
